@@ -18,7 +18,7 @@ Local names are irrelevant in both: the roles are read off the data flow (Parame
 import ast, os
 from tracer import shim
 from tracer.emit import Gen
-from tracer.recipes.c11 import _SymBool, _fn, _ret
+from tracer.recipes.c11 import _SymBool, _fn, _ret, bind_module_constants
 
 NUMPY = 'odak/raytracing/boundary.py'
 TORCH = 'odak/learn/raytracing/boundary.py'
@@ -60,6 +60,19 @@ def _targets(stmts):
     return list(dict.fromkeys(out))
 
 
+def b_not(x):
+    """negation with constants and double negations folded"""
+    if x.op == 'const': return shim.B('const', not x.a[0])
+    if x.op == 'not': return x.a[0]
+    return ~x
+
+
+def b_and(x, y):
+    if x.op == 'const': return y if x.a[0] else x
+    if y.op == 'const': return x if y.a[0] else y
+    return x & y
+
+
 class ParametricCut:
     """The current `intersect_parametric`, executed symbolically for ONE pass of its loop.  Nothing depends on the names of
     its locals, on whether the secant state is kept in lists or in scalars, or on whether the loop is head-tested or
@@ -83,24 +96,52 @@ class ParametricCut:
         self.path, self.src, self.fn = path, src, fn
         loops = [st for st in body if isinstance(st, (ast.While, ast.For))]
         inner = [n for st in body for n in ast.walk(st)]
-        if len(loops) != 1 or not isinstance(loops[0], ast.While) or loops[0].orelse \
+        if len(loops) != 1 or loops[0].orelse \
                 or any(isinstance(n, (ast.Break, ast.Continue, ast.Try, ast.With, ast.Raise, ast.Yield, ast.FunctionDef, ast.Lambda)) for n in inner) \
                 or any(isinstance(n, (ast.While, ast.For)) and n is not loops[0] for n in inner):
-            raise shim.TraceError('intersect_parametric: expected init; one while loop; epilogue')
-        self.loop = w = loops[0]
+            raise shim.TraceError('intersect_parametric: expected init; one loop; epilogue')
+        w = loops[0]
         k = body.index(w)
-        self.pre, self.post = body[:k], body[k + 1:]
-        if not self.post or not isinstance(self.post[-1], ast.Return) or any(isinstance(n, ast.Return) for st in self.post[:-1] for n in ast.walk(st)):
-            raise shim.TraceError('intersect_parametric: the epilogue does not end in a single return')
-        ret = self.post[-1].value
-        if not (isinstance(ret, ast.Tuple) and len(ret.elts) == 2):
-            raise shim.TraceError('intersect_parametric: the function no longer returns (distance, normal)')
-        self.ret_dist = ret.elts[0]
+        self.pre, self.post = list(body[:k]), body[k + 1:]
+        self.test, self.body = self._normalise(w, self.pre)
+        # the result is either returned after the loop (`return <distance>, normal`) or from inside it (`if converged: return ...`)
+        self.ret_dist = None
+        if self.post:
+            if not isinstance(self.post[-1], ast.Return) or any(isinstance(n, ast.Return) for st in self.post[:-1] for n in ast.walk(st)):
+                raise shim.TraceError('intersect_parametric: the epilogue does not end in a single return')
+            ret = self.post[-1].value
+            if not (isinstance(ret, ast.Tuple) and len(ret.elts) == 2):
+                raise shim.TraceError('intersect_parametric: the function no longer returns (distance, normal)')
+            self.ret_dist = ret.elts[0]
         self.params = [a.arg for a in fn.args.args]
         self.defaults = {a.arg: ast.literal_eval(d) for a, d in zip(fn.args.args[-len(fn.args.defaults):], fn.args.defaults)}
-        self.guard_src = ast.get_source_segment(src, w.test)
-        self.assigned = _targets(w.body)
+        self.guard_src = ast.unparse(self.test)
+        self.assigned = _targets(self.body)
         self.roles = None
+
+    @staticmethod
+    def _normalise(loop, pre):
+        """(loop condition, statements of a pass) for `while c: ...` and for `for i in itertools.count(1): ...` (an unbounded
+        counter: the explicit counter `__count` starts at 0, is incremented at the start of every pass and copied into the
+        loop variable; the loop condition is `True`, the loop is left by the returns inside it).  Any other iterable fails
+        closed."""
+        if isinstance(loop, ast.While):
+            return loop.test, list(loop.body)
+        it = loop.iter
+        is_count = isinstance(it, ast.Call) and not it.keywords and len(it.args) <= 1 and (
+            (isinstance(it.func, ast.Attribute) and it.func.attr == 'count' and isinstance(it.func.value, ast.Name) and it.func.value.id == 'itertools')
+            or (isinstance(it.func, ast.Name) and it.func.id == 'count'))
+        if not is_count or not isinstance(loop.target, ast.Name):
+            raise shim.TraceError('intersect_parametric: a for loop that does not run over itertools.count(start)')
+        try:
+            start = ast.literal_eval(it.args[0]) if it.args else 0
+        except Exception:
+            raise shim.TraceError('intersect_parametric: itertools.count with a non-literal start')
+        if not isinstance(start, int) or isinstance(start, bool):
+            raise shim.TraceError('intersect_parametric: itertools.count with a non-integer start')
+        pre.append(ast.parse('__count = %d' % (start - 1)).body[0])
+        body = ast.parse('__count += 1\n%s = __count' % loop.target.id).body + list(loop.body)
+        return ast.Constant(True), body
 
     def _exec(self, stmts, ns):
         import copy
@@ -138,14 +179,20 @@ class ParametricCut:
     # ---- the state of the loop
     def _prologue(self, m, probe):
         ns = self.namespace()
-        def surface(point, surf):
-            probe['point'] = point
+        def surface(*a, **kw):
+            # user callback: whatever way it is called, its first argument (or the only array-valued keyword besides the surface) is the point
+            cands = list(a) + [v for _, v in sorted(kw.items())]
+            pts = [c for c in cands if getattr(c, 'shape', None) == (m, 3)]
+            if len(pts) != 1:
+                raise shim.TraceError('intersect_parametric: the surface function is not called with one [m x 3] point array')
+            probe['point'] = pts[0]
             return shim.wrap([shim.var('e1')]) if m == 1 else shim.sym('e1', (m,))
         vals = {'ray': shim.sym('r', (m, 2, 3)), 'parametric_surface': shim.sym('s', (4,)), 'surface_function': surface,
-                'surface_normal_function': lambda point, surf: None, 'target_error': shim.var('tol'), 'iter_no_limit': shim.var('limit')}
+                'surface_normal_function': lambda *a, **kw: '<normal>', 'target_error': shim.var('tol'), 'iter_no_limit': shim.var('limit')}
         for p_ in self.params:
             if p_ not in vals: raise shim.TraceError('intersect_parametric has an unknown parameter %s' % p_)
             ns[p_] = vals[p_]
+        bind_module_constants(self.src, ns)
         self._exec(self.pre, ns)
         return ns
 
@@ -185,7 +232,7 @@ class ParametricCut:
     def _pass(self, ns):
         ns['__exits__'] = []
         import copy
-        body = [_Exits().visit(copy.deepcopy(st)) if isinstance(st, ast.If) else st for st in self.loop.body]
+        body = [_Exits().visit(copy.deepcopy(st)) if isinstance(st, ast.If) else st for st in self.body]
         if any(isinstance(n, ast.Return) for st in body for n in ast.walk(st)):
             raise shim.TraceError('intersect_parametric: a return in the loop that is not `if cond: return value`')
         self._exec(body, ns)
@@ -195,7 +242,7 @@ class ParametricCut:
         import random
         probe = {}
         ns = self._prologue(1, probe)
-        first = self._eval(self.loop.test, ns)        # python's own short-circuit semantics on the concrete initial state
+        first = self._eval(self.test, ns)             # python's own short-circuit semantics on the concrete initial state
         if isinstance(first, shim.B) or not bool(first):
             raise shim.TraceError('intersect_parametric: the first pass of the loop is not unconditional')
         slots = self._slots(ns)
@@ -249,11 +296,33 @@ class ParametricCut:
             self._put(ns, slots[k], shim.var('iter_no') if r == 'iter_no' else vec(r))
         self._pass(ns)
         g = lambda r: self._get(ns, slots[self.roles[r]])
-        cont = self._eval(_SymBool().visit(__import__('copy').deepcopy(self.loop.test)), ns)
-        self._exec(self.post[:-1], ns)
-        ret = self._eval(self.ret_dist, ns)
+        # exits recorded during the pass, in program order: flags `(False, False)` and at most one success exit `(distance, normal)`;
+        # the success exit must come after every flag (as the loop condition of a head-tested loop does)
+        flags, success = [], None
+        for cond, val in ns['__exits__']:
+            if isinstance(val, tuple) and len(val) == 2 and val[0] is False and val[1] is False:
+                if success is not None:
+                    raise shim.TraceError('intersect_parametric: a flag exit after the exit that returns the result')
+                flags.append(cond)
+            elif isinstance(val, tuple) and len(val) == 2 and success is None:
+                success = (cond, val[0])
+            else:
+                raise shim.TraceError('intersect_parametric: an exit inside the loop returns %r' % (val,))
+        cont = self._eval(_SymBool().visit(__import__('copy').deepcopy(self.test)), ns)
+        cont = cont if isinstance(cont, shim.B) else shim.B.lift(bool(cont))
+        if success is not None:
+            sc = success[0] if not hasattr(success[0], 'shape') else _row(success[0], 0, 1)
+            cont = b_and(cont, b_not(shim.B.lift(sc)))
+            ret = success[1]
+        else:
+            if self.ret_dist is None:
+                raise shim.TraceError('intersect_parametric: no result is returned, neither after the loop nor from inside it')
+            self._exec(self.post[:-1], ns)
+            ret = self._eval(self.ret_dist, ns)
+        if cont.op == 'const':
+            raise shim.TraceError('intersect_parametric: the loop does not depend on the error (condition %r)' % (cont.a[0],))
         return {'d0': g('d0'), 'd1': g('d1'), 'e0': g('e0'), 'e1': g('e1_old') if 'e1_old' in self.roles else (shim.var('e1') if m == 1 else shim.sym('e1', (m,))),
-                'count': g('iter_no'), 'continue': shim.B.lift(cont), 'ret': ret, 'exits': ns['__exits__'], 'point': probe.get('point')}
+                'count': g('iter_no'), 'continue': cont, 'ret': ret, 'exits': [(c, (False, False)) for c in flags], 'point': probe.get('point')}
 
 
 def _row(x, i, m):
